@@ -4,7 +4,7 @@
 # /tmp/mt; the scratch harness points at the scratch repo. Nothing in /repo or /verif is touched.
 set -u
 P=$1; shift
-MT=/tmp/mt
+MT=${MT:-/tmp/mt}
 mkdir -p $MT
 [ -d $MT/verif ] || git -C /verif worktree add -q --detach $MT/verif HEAD
 [ -d $MT/repo ] || git -C /repo worktree add -q --detach $MT/repo HEAD
